@@ -305,7 +305,10 @@ fn server_disconnect(name: String, params: Value) -> Scenario {
     Box::new(move |chz, ex| {
         let mut sys = Sys::new("C13", &name, chz);
         sys.params = params.clone();
-        sys.bring_up(vec![]);
+        // Request Problem Information unset / 1 / 0: with 0 a server leaves reason strings and user
+        // properties out of acknowledgements - it may still put them into CONNACK and DISCONNECT
+        sys.base_connect.request_problem_information = [None, Some(true), Some(false)][chz.choose(3)];
+        sys.bring_up(if chz.choose(2) == 1 { vec![Prop::str(P_REASON_STRING, "welcome"), Prop::user("srv", "1")] } else { vec![] });
         let reason = DISCONNECT_REASONS[chz.choose(DISCONNECT_REASONS.len())];
         let (props, form) = disconnect_props(chz.choose(4));
         if form == 0 && reason != 0 {
